@@ -2838,15 +2838,17 @@ class GvarFontUnit(Unit):
     name = "gvar-font"
     rule = ("variable fonts built with FontBuilder (2 axes; glyph A 4 points, B two contours, C composite of A): A's variations = one "
             "tuple over 6 regions x every None-mask of the 4 outline points x phantom deltas {absent, zero, advance +50}, or two "
-            "tuples over 6x6 regions x 6x6 masks (quick: the quarter named by the seed; thorough: 10x10 masks); B and C reuse the peaks (shared tuples across glyphs); saved and reloaded; "
+            "tuples over 6x6 regions x 6x6 masks (quick: the quarter named by the seed; thorough: 10x10 masks); B and C reuse the peaks (shared tuples across glyphs); plus fonts with 4095 / 4096 / 4098 / 4200 distinct peak tuples each used by two glyphs (the shared tuple list holds 4096); saved and reloaded; "
             "oracle: gvar.variations == input minus all-None tuples, struct reader of gvar (offsets, shared tuples, tuple stores) "
             "finds the same regions and explicit deltas, HarfBuzz outlines and advance at 35 normalized locations equal base + "
             "sum(scalar x delta) with un-referenced points inferred per the spec; distinct = each font")
     required_witnesses = ("shared tuple in gvar header", "inferred deltas (IUP)", "phantom advance delta", "composite offset delta", "glyph without variations",
-                          "intermediate region scalar strictly between 0 and 1")
+                          "intermediate region scalar strictly between 0 and 1", "more than 4096 shareable peak tuples", "up to 4096 shareable peak tuples")
     chunk = 6
 
     def cases(self, tier, seed):
+        for n in (4095, 4096, 4098, 4200):
+            yield ["many-shared", n]
         for ri in range(6):
             for mask in range(16):
                 for ph in range(3):
@@ -2860,7 +2862,65 @@ class GvarFontUnit(Unit):
                             continue
                         yield [[[r1, m1, 1], [r2, m2, 0]], tier]
 
+    def check_many_shared(self, n, rec):
+        """n distinct peak tuples, each used by exactly two glyphs (so each is a candidate for the
+        shared tuple list, which holds at most 4096 entries): three glyphs with 2n/3 tuples each"""
+        rec.nontrivial()
+        peaks = [{"wght": (i % 128 + 1) / 128.0, "wdth": -((i // 128) + 1) / 64.0} for i in range(n)]
+        third = n // 3
+        use = {"A": peaks[: 2 * third], "B": peaks[third:], "D": peaks[:third] + peaks[2 * third:]}
+        names = [".notdef", "A", "B", "D"]
+        glyphs = {".notdef": G.Glyph(), "A": make_simple(GV_A, [3], b""), "B": make_simple(GV_A, [3], b""), "D": make_simple(GV_A, [3], b"")}
+        fb = FontBuilder(1000, isTTF=True)
+        fb.setupGlyphOrder(names)
+        fb.setupCharacterMap({})
+        fb.setupGlyf(glyphs)
+        fb.setupHorizontalMetrics({g: (600, 0) for g in names})
+        fb.setupHorizontalHeader(ascent=800, descent=-200)
+        fb.setupNameTable({"familyName": "T", "styleName": "R"})
+        fb.setupFvar([("wght", 100, 400, 900, "Weight"), ("wdth", 50, 100, 200, "Width")], [])
+
+        def region(pk):
+            return {a: ((0.0, v, v) if v > 0 else (v, v, 0.0)) for a, v in pk.items()}
+
+        def mk(plist, salt):
+            return [TV.TupleVariation(region(pk), [((k + salt) % 50 - 20, (k * 3) % 40 - 10), None, None, None] + [None] * 4) for k, pk in enumerate(plist)]
+
+        want = {g: mk(pl, j) for j, (g, pl) in enumerate(use.items())}
+        fb.setupGvar({g: list(v) for g, v in want.items()})
+        fb.setupPost(keepGlyphNames=True)
+        data = save_bytes(fb.font)
+        gv2 = TTFont(io.BytesIO(data))["gvar"]
+        for g in ("A", "B", "D"):
+            got = list(gv2.variations.get(g, []))
+            if len(got) != len(want[g]):
+                rec.violation("gvar:many-shared-tuples:count", "%d peaks: glyph %s has %d variations, expected %d" % (n, g, len(got), len(want[g])))
+                return
+            bad = [k for k, (a, b) in enumerate(zip(got, want[g])) if not (a == b)]
+            if bad:
+                rec.violation("gvar:many-shared-tuples:decompile", "%d peaks: glyph %s: %d variations read back differently, first at #%d: %r, expected %r" % (n, g, len(bad), bad[0], got[bad[0]], want[g][bad[0]]))
+                return
+        tabs = R.sfnt_tables(data)
+        shared, blobs, _long = R.gvar(tabs["gvar"], 2)
+        if len(shared) > 4096:
+            rec.violation("gvar:many-shared-tuples:header", "%d peaks: %d shared tuples in the gvar header (a tuple index has 12 bits)" % (n, len(shared)))
+        rec.witness("more than 4096 shareable peak tuples" if n > 4096 else "up to 4096 shareable peak tuples")
+        for gi, g in ((1, "A"), (2, "B"), (3, "D")):
+            b = blobs[gi]
+            try:
+                rd = R.tuple_variation_store(b, 4, R.u16(b, 2), R.u16(b, 0), 2, 8, shared, 2)
+            except R.ReadError as e:
+                rec.violation("gvar:many-shared-tuples:reader", "%d peaks: glyph %s: independent reader: %s" % (n, g, e))
+                return
+            exp_peaks = [tv_region_raw(region(pk))[0] for pk in use[g]]
+            if [r[0] for r in rd] != exp_peaks:
+                k = [i for i, (x, y) in enumerate(zip([r[0] for r in rd], exp_peaks)) if x != y][:1]
+                rec.violation("gvar:many-shared-tuples:reader", "%d peaks: glyph %s: independent reader resolves other peak tuples (first at #%s)" % (n, g, k))
+                return
+
     def check(self, case, rec):
+        if case[0] == "many-shared":
+            return self.check_many_shared(case[1], rec)
         specs = case[0]
         locs = GV_LOCS_QUICK if case[1] == "quick" else GV_LOCS
         rec.nontrivial()
